@@ -10,6 +10,16 @@ NOT_APPLICABLE = {
 for k in ['C01','C02','C03','C04','C05','C06','C07','C10','C11','C12','C13','C14','C15','C16','C17','C18','C19','C20']:
     NOT_APPLICABLE.setdefault(k, UNDER)
 CHECKS = {
+ 'C10': {
+  'text': 'In every extracted build-path function (delete_items_in_file, insert_items_in_file, ImmutableLeafs::new, item_indices, reset_and_retrieve_updated_items, the single-bucket shortcut, clear_tree_nodes) each dependency call and each poll of the cancellation callback returns an arbitrary Ok/Err, so all fault sequences at all poll points are covered at once; Verus proves: Ok only with the full functional postcondition (never success over a half-done edit), Err(e) => e in {BuildCancelled, Heed, Io, DatabaseFull} (no MissingKey on a well-formed tree), and no panic on any path (unwrap, unreachable!, assert!, arithmetic overflow, division by zero are proof obligations).',
+  'note': 'PARTIAL: build() and its loop drivers are not under contract (evidence lists them); abort/retry and resource release are LMDB/OS (not decided). Assumption A1 (used_tree_node) is documented, not alarmed on.',
+  'technique': 'Verus postconditions with nondeterministic stand-in results on extracted real functions',
+ },
+ 'C20': {
+  'text': 'Roll-up: the structural contracts of C01 (delete / insert / leaf selection), the store contracts of C05 and the result well-formedness of C03 are proved with every float-dependent decision uninterpreted and OrderedFloat as an abstract total order, hence for duplicate, zero, collinear, extreme, NaN and infinite data alike; no-panic obligations of those functions hold under the same abstraction.',
+  'note': 'PARTIAL: termination and the float code itself (two_means, create_split, normalize, make_tree_in_file) are not under contract; the first three are drift-guarded (a change there makes the check undecided, exit 2).',
+  'technique': 'Verus contracts on extracted real functions with uninterpreted float decisions',
+ },
  'C01': {
   'text': 'Verus proves full inductive contracts, over a forest specification library (well-formed subtree = every referenced node exists, children are Tree/Item references, no item or node reachable twice), for the real recursive tree surgery: delete_items_in_file (result = items of the subtree minus the deleted ids; the returned id roots a well-formed subtree over exactly those items after write-back; edits confined to the subtree; every dropped node is scheduled for deletion, i.e. no orphan; a subtree that fits one bucket is one bucket) and insert_items_in_file (result roots a well-formed subtree over old items plus inserted ones; reference kind preserved unless a single item grows into a fresh bucket; fresh ids only from the generator; rewritten splits reference the new children), plus ImmutableLeafs::new (candidates = selected + remaining, disjoint), item_indices, reset_and_retrieve_updated_items, the single-bucket shortcut and clear_tree_nodes. Each contract is proved for all tree shapes, ids, capacities >= 1 and all outcomes of float/RNG decisions.',
   'note': 'PARTIAL: the per-function contracts above are discharged; make_tree_in_file, the loop drivers (delete_items_from_trees, insert_items_in_current_trees, incremental_index_large_descendants, delete_extra_trees/delete_tree) and the composition into "build ok => forest_ok" are NOT under contract yet (listed in the evidence). TmpNodes, the frozen readers and the id generator are assumed stand-ins (drift-guarded; the generator contract is the one proved in C13).',
